@@ -70,6 +70,9 @@ def peer_lists(kind):
         elif kind == 'gex2048':
             sel = {'kex': ['curve25519-sha256', 'diffie-hellman-group-exchange-sha256'], 'key': ['ssh-ed25519', 'rsa-sha2-512'], 'enc': ['aes256-ctr'],
                    'mac': ['hmac-sha2-256']}[cat]
+        elif kind == 'gex2048-both':
+            sel = {'kex': ['diffie-hellman-group-exchange-sha256', 'diffie-hellman-group-exchange-sha1', 'curve25519-sha256'], 'key': ['ssh-ed25519'], 'enc': ['aes256-ctr'],
+                   'mac': ['hmac-sha2-256']}[cat]
         elif kind == 'terrapin-hardened':
             sel = {'kex': ['curve25519-sha256', 'kex-strict-s-v00@openssh.com'], 'key': ['ssh-ed25519'], 'enc': ['aes256-ctr', 'aes128-gcm@openssh.com'],
                    'mac': ['hmac-sha2-256', 'hmac-sha2-512']}[cat]
@@ -85,12 +88,12 @@ def peer_lists(kind):
 
 # the two directions of a KEXINIT may differ; the report rates the server-to-client lists
 ASYM_OTHER = {'enc': ['aes256-ctr', 'aes128-gcm@openssh.com'], 'mac': ['hmac-sha2-256', 'hmac-sha2-512']}
-PEER_KINDS = ['all', 'even', 'odd', 'clean', 'gex2048', 'terrapin-hardened', 'unknowns', 'asym-s2c-weak', 'asym-c2s-weak']
+PEER_KINDS = ['all', 'even', 'odd', 'clean', 'gex2048', 'gex2048-both', 'terrapin-hardened', 'unknowns', 'asym-s2c-weak', 'asym-c2s-weak']
 
 
 def make_server(kind, banner):
     l = peer_lists(kind)
-    gex = P.GexPolicy([2048] if kind == 'gex2048' else [4096], P.OPENSSH if kind == 'gex2048' else P.STRICT)
+    gex = P.GexPolicy([2048] if kind.startswith('gex2048') else [4096], P.OPENSSH if kind.startswith('gex2048') else P.STRICT)
     kw = {}
     if kind == 'asym-s2c-weak':
         kw = dict(enc_c2s=ASYM_OTHER['enc'], mac_c2s=ASYM_OTHER['mac'])
@@ -98,7 +101,7 @@ def make_server(kind, banner):
         kw = dict(enc_c2s=l['enc'], mac_c2s=l['mac'])
         l = dict(l, enc=ASYM_OTHER['enc'], mac=ASYM_OTHER['mac'])
     return P.Server(kex=l['kex'], key=l['key'], enc=l['enc'], mac=l['mac'], banner=banner,
-                    host_keys=P.standard_host_keys(l['key'], rsa_bits=2048 if kind == 'gex2048' else 3072), gex=gex, **kw), l
+                    host_keys=P.standard_host_keys(l['key'], rsa_bits=2048 if kind.startswith('gex2048') else 3072), gex=gex, **kw), l
 
 
 def known_in(prod, version, cat, name):
